@@ -125,8 +125,9 @@ def run_lexer_rows(ck, rows, tag='lex', hang_ms=3000):
             try:
                 _, err = p.communicate(timeout=1800)
             except subprocess.TimeoutExpired:
-                p.kill()
-                _, err = p.communicate()
+                for q, _, _ in procs:
+                    q.kill()
+                raise common.Infra('mxh lexer shard did not finish within 1800 s (machine overloaded?)')
             started = None
             fin = set()
             if os.path.exists(outp):
